@@ -193,6 +193,9 @@ func (u *Unmarshaler) Unmarshal(serialized []byte) (*Biscuit, error) {
 	}
 
 	symbols.Extend(authority.symbols)
+	if err := authority.checkSymbols(symbols); err != nil {
+		return nil, err
+	}
 
 	blocks := make([]*Block, len(container.Blocks))
 	for i, sb := range container.Blocks {
@@ -214,6 +217,9 @@ func (u *Unmarshaler) Unmarshal(serialized []byte) (*Biscuit, error) {
 		}
 		blocks[i] = block
 		symbols.Extend(blocks[i].symbols)
+		if err := block.checkSymbols(symbols); err != nil {
+			return nil, err
+		}
 	}
 
 	return &Biscuit{
